@@ -353,6 +353,10 @@ func typeAssert(n *node, withResult, withOk bool) {
 		n.exec = func(f *frame) bltn {
 			valf := value(f)
 			v, ok := valf.Interface().(valueInterface)
+			if ok && v.node == nil {
+				// The zero valueInterface is the nil value of an interface type.
+				ok = false
+			}
 			if withOk {
 				defer func() { assertStatus(f, value0, value1, setStatus, ok) }()
 			}
@@ -426,6 +430,14 @@ func typeAssert(n *node, withResult, withOk bool) {
 			val, ok := v.Interface().(valueInterface)
 			if withOk {
 				defer func() { assertStatus(f, value0, value1, setStatus, ok) }()
+			}
+			if ok && val.node == nil {
+				// The zero valueInterface is the nil value of an interface type.
+				ok = false
+				if !withOk {
+					panic(n.cfgErrorf("interface conversion: interface is nil, not %s", rtype.String()))
+				}
+				return next
 			}
 			if ok && val.node.typ.cat != valueT {
 				m0 := val.node.typ.methods()
